@@ -349,18 +349,21 @@ bdindices = concatenate(slice_indices(bdax, firstidx, N, ravel=True), slice_indi
 return bdindices, coll_coeffs.ravel()
 ``` -/
 def initialCondition01 (N : List Nat) (bd : BdSpec) (a b c d : α) (c0 c1 : List α) :
-    Except Err (List Nat × List α) := do
-  let (ax, side) ← parseBdspec bd N.length
-  if c0.length ≠ c1.length then throw Err.value      -- np.stack
-  let (x0, x1) ← solve2 a b c d c0 c1
+    Except Err (List Nat × List α) :=
+  match parseBdspec bd N.length with
+  | .error e => .error e
+  | .ok (ax, side) =>
+  if c0.length ≠ c1.length then .error .value else      -- np.stack
+  match solve2 a b c d c0 c1 with
+  | .error e => .error e
+  | .ok (x0, x1) =>
   let firstidx : Int := if side = 0 then 0 else -2
-  let s0 ← match sliceIndices ax firstidx N none with
-    | .ok l => pure l
-    | .error e => throw (Err.ofSlice e)
-  let s1 ← match sliceIndices ax (firstidx + 1) N none with
-    | .ok l => pure l
-    | .error e => throw (Err.ofSlice e)
-  pure (s0 ++ s1, x0 ++ x1)
+  match sliceIndices ax firstidx N none with
+  | .error e => .error (Err.ofSlice e)
+  | .ok s0 =>
+  match sliceIndices ax (firstidx + 1) N none with
+  | .error e => .error (Err.ofSlice e)
+  | .ok s1 => .ok (s0 ++ s1, x0 ++ x1)
 
 end field
 
